@@ -435,7 +435,15 @@ func Harness_C06_CloseWhileTimerFires() {
 	}()
 	vQuiesce()
 	vStallRelease()
-	<-closed
+	vQuiesce()
+	vAdvance(1000 * 1000000)
+	vQuiesce()
+	select {
+	case <-closed:
+	default:
+		vAssert("close-returns-while-a-call-timer-fires", false)
+		return
+	}
 	vAssert("close-returns-promptly", vNow()-t0 < 1500*1000000)
 	vQuiesce()
 	if removeOnly {
